@@ -54,7 +54,9 @@ def _disabled_dep_witness():
             "strategy": "off", "gseed": 1, "interrupt": None, "fault": None}
 
 
-Run.corpus = [_disabled_dep_witness()]
+from run import witnesses2 as W2  # noqa: E402
+
+Run.corpus = [_disabled_dep_witness()] + W2.CONTROLS2
 
 
 # ---- the declaration path: stacked depends_on decorators, predicates, validation of the dependency graph -------------------
